@@ -69,7 +69,14 @@ class GenericValue(Snapshot):
                 old_value.value = value
                 return
 
-            if type(old_value) is not type(value):
+            if type(old_value) is not type(value) and not (
+                # the adapters convert subclasses of list and dict
+                # (like OrderedDict) into plain lists and dicts
+                type(old_value) in (list, dict)
+                and isinstance(value, type(old_value))
+                and self.get_adapter(old_value).__class__
+                is self.get_adapter(value).__class__
+            ):
                 raise UsageError(
                     "snapshot value should not change. Use Is(...) for dynamic snapshot parts."
                 )
